@@ -140,12 +140,15 @@ class Rec:
     def __init__(self, cls, fields=None):
         self.cls = cls          # ClassInfo
         self.f = dict(fields or {})
+        self.origin = self      # object identity survives snapshots: old.x and new.x denote the same python object iff origins agree
 
     def __repr__(self):
         return f"<{self.cls.name} {self.f}>"
 
     def snapshot(self):
-        return Rec(self.cls, {k: (v.snapshot() if hasattr(v, "snapshot") else v) for k, v in self.f.items()})
+        r = Rec(self.cls, {k: (v.snapshot() if hasattr(v, "snapshot") else v) for k, v in self.f.items()})
+        r.origin = self.origin
+        return r
 
 
 class PyList:
@@ -247,7 +250,9 @@ class ClassInfo:
         for n in node.body:
             if isinstance(n, ast.FunctionDef):
                 decos = [d.id if isinstance(d, ast.Name) else (d.attr if isinstance(d, ast.Attribute) else "") for d in n.decorator_list]
-                if "property" in decos:
+                if "property" in decos or "cached_property" in decos:
+                    # cached_property is read as a plain property: sound for functions of the object's current state only
+                    # (the cache is never invalidated by the code under contract); listed under `dropped` by the contracts
                     self.props[n.name] = n
                 elif "setter" in decos:
                     self.methods["__set_" + n.name] = n
@@ -281,10 +286,16 @@ class ClassInfo:
 class World:
     """the in-scope classes/functions of one repo file + models for library calls"""
 
-    def __init__(self, file, classes=None, functions=(), extra_builtins=None, modular=None):
+    def __init__(self, file, classes=None, functions=(), extra_builtins=None, modular=None, stubs=None):
         self.file = file
         self.src, self.tree = parse_repo_file(file)
         self.classes: dict[str, ClassInfo] = {}
+        # stubs: abstract records for the ENVIRONMENT objects a function operates on (operators, measurement processes ...):
+        # name -> (python source of a field-only class, fields).  They model inputs, never code under contract.
+        self.stub_realize = {}
+        for name, (stub_src, fields) in (stubs or {}).items():
+            node = next(n for n in ast.parse(stub_src).body if isinstance(n, ast.ClassDef) and n.name == name)
+            self.classes[name] = ClassInfo(name, node, fields, "<stub>", stub_src)
         for name, fields in (classes or {}).items():
             cfile = file
             if isinstance(fields, tuple):
@@ -335,6 +346,11 @@ class World:
                 d.declare("mk", *[(f"e{i}", self.sort_of(a)) for i, a in enumerate(t.args)])
                 self.tuple_dts[key] = d.create()
             return self.tuple_dts[key]
+        if t.kind == "union":        # tagged union of in-scope classes (xmaps.py)
+            from . import xmaps
+            return xmaps.union_sort(self, t)
+        if t.kind == "map":
+            return z3.ArraySort(self.sort_of(t.args[0]), self.sort_of(t.args[1]))
         raise Unsupp(f"no sort for type {t}")
 
     # boxing values into z3 terms of a sort (for sequence elements) and back
@@ -366,6 +382,9 @@ class World:
                 if t.kw.get("ax"):
                     return self.aseq(t.args[0]).of([self.box(x, t.args[0]) for x in items])
                 return seq_of([self.box(x, t.args[0]) for x in items], self.sort_of(t.args[0]))
+        if t.kind == "union":
+            from . import xmaps
+            return xmaps.union_box(self, v, t)
         raise Unsupp(f"boxing as {t}")
 
     def unbox(self, term, t: T):
@@ -384,6 +403,9 @@ class World:
             return SeqV(term, t.args[0])
         if t.kind == "set":
             return SetV(term, t.args[0])
+        if t.kind == "union":
+            from . import xmaps
+            return xmaps.UnionV(term, t, self)
         raise Unsupp(f"unboxing {t}")
 
 
@@ -471,6 +493,8 @@ class Ctx:
             # z3 does not honour its timeout inside an MBQI round).  Without it `unknown` comes back quickly, and an undecided
             # VC falls through to the bounded native search -- never to a violation.
             z3.set_param("smt.mbqi", False)
+        else:
+            z3.set_param("smt.mbqi", True)      # workers are reused: never inherit the setting of a previous obligation
         self.solver = z3.Solver()
         set_budget(self.solver, timeout_ms)
         self.timeout_ms = timeout_ms
@@ -680,12 +704,20 @@ def fresh(ctx: Ctx, t: T, name):
         return SeqV(z3.Const(ctx.fresh_name(name), w.sort_of(t)), t.args[0], t.kw.get("tuple", False))
     if t.kind == "set":
         return SetV(z3.Const(ctx.fresh_name(name), w.sort_of(t)), t.args[0])
+    if t.kind == "union":
+        from . import xmaps
+        return xmaps.UnionV(z3.Const(ctx.fresh_name(name), w.sort_of(t)), t, w)
+    if t.kind == "map" and t.kw.get("default") is not None:      # defaultdict(int) / Counter (xmaps.py)
+        from . import xmaps
+        return xmaps.fresh_dmap(ctx, t, name)
     if t.kind == "map":
         ks, vs = w.sort_of(t.args[0]), w.sort_of(t.args[1])
         return MapV(z3.Const(ctx.fresh_name(name + ".dom"), z3.ArraySort(ks, z3.BoolSort())),
                     z3.Const(ctx.fresh_name(name + ".val"), z3.ArraySort(ks, vs)), t.args[0], t.args[1])
     if t.kind == "const":
         return t.args[0]
+    if t.kind == "build":
+        return t.args[0](ctx, name)        # contract-supplied constructor of a structured symbolic value
     if t.kind == "ufunc":
         return UFunc(t.args[0], t.args[1] if len(t.args) > 1 else 1)
     if t.kind == "classref":
@@ -723,7 +755,11 @@ def concretize(world, v, model):
             th = AQ.theory_of(v)
             n = model.eval(th.LEN(v), model_completion=True).as_long()
             return [model_term_to_py(world, model.eval(th.AT(v, z3.IntVal(k)), model_completion=True), model) for k in range(max(0, min(n, 12)))]
+        if z3.is_app(r) and r.sort().kind() == z3.Z3_DATATYPE_SORT:
+            return model_term_to_py(world, r, model)
         return str(r)
+    if type(v).__name__ == "UnionV":
+        return concretize(world, v.term, model)
     if isinstance(v, SetV):
         if v.term is None:
             return {"__set__": []}
@@ -732,6 +768,9 @@ def concretize(world, v, model):
                             if z3.is_true(model.eval(z3.Select(v.term, u), model_completion=True))]}
     if isinstance(v, MapV):
         uni = model.get_universe(v.dom.sort().domain()) or []
+        if not uni and v.dom.sort().domain().kind() != z3.Z3_UNINTERPRETED_SORT:
+            from . import xmaps
+            uni = xmaps.array_true_keys(model, v.dom)       # interpreted key sorts have no finite universe: read the store chain
         return {"__map__": [[model_term_to_py(world, u, model),
                              model_term_to_py(world, model.eval(z3.Select(v.val, u), model_completion=True), model)] for u in uni
                             if z3.is_true(model.eval(z3.Select(v.dom, u), model_completion=True))]}
@@ -743,6 +782,9 @@ def concretize(world, v, model):
         return [concretize(world, x, model) for x in v.items]
     if isinstance(v, SeqV):
         return concretize(world, v.term, model)
+    if isinstance(v, dict) and all(isinstance(k, (str, int)) for k in v):
+        # python dict with concrete keys (e.g. the dict-valued fields of a record): same rendering as a finite map
+        return {"__map__": [[k, concretize(world, x, model)] for k, x in v.items()]}
     return repr(v)
 
 
@@ -781,5 +823,7 @@ def model_term_to_py(world, e, model):
         if nm.startswith("mk_") and nm[3:] in world.classes:
             ci = world.classes[nm[3:]]
             return {"__class__": ci.name, **dict(zip(ci.fields, kids))}
+        if nm.startswith("in_") and nm[3:] in world.classes and len(kids) == 1:
+            return kids[0]          # alternative of a tagged union (xmaps.py)
         return tuple(kids)
     return str(e)
